@@ -188,8 +188,10 @@ def global_functions():
             yield ("if", a, b)
             yield ("try", a, [b], None, None)
             yield ("try", a, [], None, b)
-        for a, b in itertools.product(L1, B1):
+        for a, b in itertools.product(L2, B1):
             yield ("while", a, b)
+            if len(a) == 2:
+                yield ("for", a, b)
     for init in (True, False):
         g = ("global", init)
         yield cfg.renumber([g, ("use", 0), ("assign", 0), ("use", 0)])
